@@ -36,7 +36,7 @@ class Free:
 CORE = frozenset("""int float varint zigzag bytes gbytes pstr pascal cstr gstr flag enum flagsenum mapping const computed
  pass padding struct seq fseq array grange parray if ite switch rebuild default prefixed fixedsized padded aligned
  nullterm nullstrip check""".split())
-SEQUENTIAL = CORE | frozenset("""docs expr bint lazybound runtil select optional stopif bitwise bitstruct bytewise byteswapped bitsswapped xor rol
+SEQUENTIAL = CORE | frozenset("""docs expr bint lamlen lazybound runtil select optional stopif bitwise bitstruct bytewise byteswapped bitsswapped xor rol
  compressed hex hexdump oneof noneof alignedstruct bomstr index terminated""".split())
 
 
@@ -55,6 +55,7 @@ class GenCtx:
         g = GenCtx(self.frag, self.depth - 1, self.tail, self.ints, self.params, self.bit, self.ctxfree, self.names)
         g.scope_depth = self.scope_depth
         g.rootrefs = self.rootrefs
+        g.ntflags = self.ntflags
         for k, v in kw.items():
             setattr(g, k, v)
         return g
@@ -66,6 +67,8 @@ class GenCtx:
     parent_name = None      # name under which the struct being generated is nested (for same-name nesting)
     used_names = None
     scope_depth = 0         # number of Struct scopes entered (1 = members of the outermost Struct)
+    ntflags = False         # vary NullTerminated(include=, consume=, require=): parse-side semantics only (build always appends the
+                            # terminator, so these are not round-trip or canonical forms: used by C03's model comparison only)
     rootrefs = False        # spell references to members of the outermost Struct as this._root.x now and then
                             # (only sound when the generated spec is used as the outermost construct)
 
@@ -322,13 +325,14 @@ def gen_struct(draw, g, min1=False):
     inner.used_names = set()
     inner.scope_depth = g.scope_depth + 1
     inner.rootrefs = g.rootrefs
+    inner.ntflags = g.ntflags
     for gi in range(ngroups):
         last = gi == ngroups - 1
         inner.tail = g.tail and last
         members += gen_group(draw, inner)
     if min1 and sum(min_size(s) for _, s in members) < 1:
         members.insert(0, [g.fresh(), gen_int(draw, maxbytes=2)])
-    style = "ctor"
+    style = draw(st.sampled_from(["ctor", "ctor", "ctor", "ctor", "plus", "kw"]))     # Struct(...), a + b + c, Struct(a=..., b=...)
     return ["struct", members, style]
 
 
@@ -449,6 +453,10 @@ def gen_group(draw, g):
     if o == "default" and g.has("default"):
         sub = gen_int(draw, maxbytes=4)
         lo, hi = int_range(sub)
+        if g.params and not g.ctxfree and lo <= 0 and hi >= 5 and draw(st.integers(0, 3)) == 0:
+            # the default itself may be a function of the context
+            pk = draw(st.sampled_from(sorted(g.params)))
+            return [[g.fresh("q"), ["default", sub, ["this", ["_params", pk], draw(st.sampled_from(["attr", "item"]))]]]]
         return [[g.fresh("q"), ["default", sub, draw(st.integers(max(lo, -100), min(hi, 100)))]]]
     if o == "checked" and g.has("check") and g.ints:
         l1, n1, _ = draw(st.sampled_from(g.ints))
@@ -575,6 +583,8 @@ def gen_wrapper(draw, g):
         return ["aligned", m, gen_spec(draw, g.child(tail=False)), draw(st.sampled_from([b"\x00", b"\xee"]))]
     if o == "nullterm":
         term = draw(st.sampled_from([b"\x00", b"\x00\x00", b"\xff", b";", b"\r\n"]))
+        if g.ntflags and draw(st.booleans()):
+            return ["nullterm", ["gbytes"], term, draw(st.booleans()), draw(st.booleans()), draw(st.booleans())]
         return ["nullterm", ["gbytes"], term, False, True, True]
     if o == "parray":
         return ["parray", gen_lenfield(draw), gen_element(draw, g.child(tail=False))]
@@ -677,15 +687,24 @@ def gen_spec(draw, g):
 
 
 @st.composite
-def spec_and_params(draw, frag=SEQUENTIAL, depth=3, tail=True, with_params=True, rootrefs=False):
+def spec_and_params(draw, frag=SEQUENTIAL, depth=3, tail=True, with_params=True, rootrefs=False, ntflags=False):
     params = {}
     if with_params and draw(st.booleans()):
         for name in draw(st.lists(st.sampled_from(["k", "m", "w"]), max_size=2, unique=True)):
             params[name] = draw(st.integers(0, 5))
     g = GenCtx(frag, depth, tail, [], params)
     g.rootrefs = rootrefs
+    g.ntflags = ntflags
     o = draw(st.sampled_from(["struct", "struct", "any"]))
     spec = gen_struct(draw, g) if o == "struct" else gen_spec(draw, g)
+    if g.has("lamlen") and draw(st.integers(0, 3)) == 0:
+        # some parameters as hand-written lambdas with attribute access on the context (ctx._.n) instead of expression objects:
+        # they compute the same, but a missing entry surfaces as AttributeError rather than KeyError
+        from pbt.grammar import expr_param_indices
+        for node in walk(spec):
+            for i in expr_param_indices(node):
+                if is_expr(node[i]) and node[i][0] not in ("const", "lam") and "obj" not in X.roots(node[i]) and draw(st.integers(0, 2)) == 0:
+                    node[i] = ["lam", "attr", node[i]]
     return spec, params
 
 
@@ -693,7 +712,8 @@ def spec_and_params(draw, frag=SEQUENTIAL, depth=3, tail=True, with_params=True,
 # value generation
 # ---------------------------------------------------------------------------------------------
 def biased_int(draw, lo, hi):
-    pool = {lo, hi, 0, 1, -1, lo + 1, hi - 1, 127, 128, 255, 256, -128, -129, 0x7fff, 0x8000, 0xffff}
+    pool = {lo, hi, 0, 1, -1, lo + 1, hi - 1, 127, 128, 255, 256, -128, -129, 0x7fff, 0x8000, 0xffff, 0x10000, (1 << 31) - 1, 1 << 31, (1 << 32) - 1, 1 << 32,
+            (1 << 63) - 1, 1 << 63, (1 << 64) - 1, 1 << 64, -(1 << 31), -(1 << 31) - 1, -(1 << 63), -(1 << 63) - 1}
     pool = sorted(v for v in pool if lo <= v <= hi)
     if draw(st.integers(0, 2)) == 0:
         return draw(st.sampled_from(pool))
@@ -1026,7 +1046,13 @@ def _gen_members(draw, members, sc, vp):
             s2[name] = v
         elif used and sub[0] == "default" and sub[1][0] == "int":
             v = draw(st.sampled_from([None, None, 0, 1, 2, 3]))
-            s2[name] = sub[2] if v is None else v
+            dv = sub[2]
+            if is_expr(dv):
+                try:
+                    dv = X.evaluate(dv, s2)
+                except Exception:
+                    dv = Free()
+            s2[name] = dv if v is None else v
         elif used and sub[0] == "const" and sub[2] is not None:
             v = draw(st.sampled_from([None, None, sub[1]]))
             s2[name] = sub[1]
@@ -1067,9 +1093,9 @@ def _gen_struct_value(draw, members, sc, vp):
 
 
 @st.composite
-def cases(draw, frag=SEQUENTIAL, depth=3, tail=True, with_params=True, rootrefs=False):
+def cases(draw, frag=SEQUENTIAL, depth=3, tail=True, with_params=True, rootrefs=False, ntflags=False):
     """(spec, params, value)"""
-    spec, params = draw(spec_and_params(frag, depth, tail, with_params, rootrefs))
+    spec, params = draw(spec_and_params(frag, depth, tail, with_params, rootrefs, ntflags))
     sc = top_scope(params, "build")
     value = gen_value(draw, spec, sc)
     return spec, params, value
